@@ -498,6 +498,10 @@ pub fn fam_c09(thorough: bool) -> Vec<Program> {
 		(Spec::Coll(Kind::Retry, vec![Spec::M(1), Spec::R(0), Spec::M(0)]), vec![Spec::Coll(Kind::Boxed, vec![Spec::M(0), Spec::M(1)]), Spec::R(0), Spec::M(0)]),
 		(Spec::Native(Native::Slice(Kind::Retry, vec![2, 0, 1])), vec![Spec::Native(Native::Arr3(Kind::Retry, [1, 0, 2])), Spec::R(1)]),
 		(Spec::Native(Native::TupMR(Kind::Retry, 0, 0)), vec![Spec::Coll(Kind::Retry, vec![Spec::R(0), Spec::M(0)]), Spec::M(0)]),
+		// an owned unit whose members are listed against the address order, inside / behind a retrying collection,
+		// against a thread that takes the unit directly
+		(Spec::Native(Native::OwnedDescIn(Kind::Retry, 2)), vec![Spec::Native(Native::OwnedDescItself(2)), Spec::Native(Native::OwnedDescRef(Kind::Boxed, 2))]),
+		(Spec::Native(Native::OwnedDescRef(Kind::Retry, 2)), vec![Spec::Native(Native::OwnedDescItself(2)), Spec::Native(Native::OwnedDescIn(Kind::Ref, 2))]),
 	];
 	for policy in POLICIES {
 		for (t0s, others) in &nested {
@@ -907,6 +911,42 @@ pub fn fam_unlock(thorough: bool) -> Vec<Program> {
 						continue;
 					}
 					out.push(Program { specs: vec![t.clone()], threads: vec![vec![acq(0, w0, *f0, quick)], vec![acq(0, true, Flavour::Guard, inside)], vec![acq(0, w2, Flavour::Try, quick)]], policy: Policy::RP, name: "U".into(), menu: vec![] });
+				}
+			}
+		}
+	}
+	out
+}
+
+/// Family Z: inputs in which a lock is reachable twice, the two occurrences NOT adjacent in any order the
+/// constructor might look at (listing order, address order, nested). The checked constructors reject them
+/// (then the program is vacuous); a constructor that lets one through yields a collection whose blocking
+/// acquisition waits for a lock the thread already holds.
+pub fn fam_duplicates() -> Vec<Program> {
+	let mut out = vec![];
+	let r = |i| Spec::R(i);
+	for k in KINDS {
+		let mut inputs = vec![
+			Spec::Coll(k, vec![r(0), r(1), r(0)]),
+			Spec::Coll(k, vec![r(1), r(0), r(2), r(1)]),
+			Spec::Coll(k, vec![r(2), r(0), r(1), r(2)]),
+			Spec::Coll(k, vec![Spec::M(0), r(0), Spec::M(0)]),
+			Spec::Coll(k, vec![Spec::OW(0), r(0), Spec::OW(0)]),
+			Spec::Coll(k, vec![Spec::PR(0), r(0), Spec::PR(0)]),
+		];
+		for k2 in KINDS {
+			inputs.push(Spec::Coll(k, vec![r(0), Spec::Coll(k2, vec![r(1), r(0)])]));
+			inputs.push(Spec::Coll(k, vec![Spec::Coll(k2, vec![r(0), r(1)]), r(2), r(0)]));
+			inputs.push(Spec::Coll(k, vec![Spec::Coll(k2, vec![r(0), r(2)]), Spec::Coll(k2, vec![r(1), r(0)])]));
+			inputs.push(Spec::Coll(k, vec![r(1), Spec::Pois(Box::new(Spec::Coll(k2, vec![r(0), r(1)])))]));
+		}
+		for s in inputs {
+			for w in [true, false] {
+				if !w && !s.sharable() {
+					continue;
+				}
+				for f in [Flavour::Guard, Flavour::ScopedLent] {
+					out.push(Program { specs: vec![s.clone(), Spec::R(3)], threads: vec![vec![acq(0, w, f, Body::TOUCH)], vec![acq(1, true, Flavour::Guard, Body::NONE)]], policy: Policy::WP, name: "Z".into(), menu: vec![] });
 				}
 			}
 		}
